@@ -52,7 +52,9 @@ let int_of_z (x : z) : int =
 let rec nat_of_int (n : int) : nat = if n <= 0 then O else S (nat_of_int (n - 1))
 
 let z_of_sx = function A s -> z_of_int (int_of_string s) | _ -> failwith "int expected"
-let sx_of_z (x : z) = A (string_of_int (int_of_z x))
+(* printed through the model's own itoa: values may exceed OCaml's 63-bit int *)
+let string_of_bytes (l : z list) = String.concat "" (List.map (fun c -> String.make 1 (Char.chr ((int_of_z c) land 255))) l)
+let sx_of_z (x : z) = A (string_of_bytes (itoa x))
 let bool_of_sx = function A "1" | A "true" -> true | A "0" | A "false" -> false | _ -> failwith "bool expected"
 let sx_of_bool b = A (if b then "1" else "0")
 
@@ -161,3 +163,45 @@ let rec filt_of_sx (x : sx) : filt =
   | A "fwd" -> FFwd
   | A "rev" -> FRev
   | _ -> failwith "filter expected"
+
+(* ---- GenBank records *)
+let sx_of_zbig = sx_of_z
+let sx_of_pairs l = L (List.map (fun (a, b) -> L [sx_of_bytes a; sx_of_bytes b]) l)
+let pairs_of_sx = list_of_sx (function L [a; b] -> (bytes_of_sx a, bytes_of_sx b) | _ -> failwith "pair expected")
+let sx_of_ref (r : reference) : sx =
+  L [A "REF"; sx_of_zbig r.r_number; sx_of_bytes r.r_info; sx_of_bytes r.r_authors; sx_of_bytes r.r_group;
+     sx_of_bytes r.r_title; sx_of_bytes r.r_journal;
+     (match r.r_pubmed with Some v -> sx_of_bytes v | None -> A "-"); sx_of_bytes r.r_comment]
+let ref_of_sx = function
+  | L [A "REF"; n; i; a; g; t; j; p; c] ->
+    { r_number = z_of_sx n; r_info = bytes_of_sx i; r_authors = bytes_of_sx a; r_group = bytes_of_sx g;
+      r_title = bytes_of_sx t; r_journal = bytes_of_sx j;
+      r_pubmed = (match p with A "-" -> None | v -> Some (bytes_of_sx v)); r_comment = bytes_of_sx c }
+  | _ -> failwith "reference expected"
+let sx_of_gb (g : genbank) : sx =
+  let f = g.gb_fields in
+  let ((y, m), d) = f.f_date in
+  let ((ca, ch), ct) = f.f_contig in
+  L [A "GB"; sx_of_bytes f.f_locus; sx_of_bytes f.f_molecule; sx_of_zbig f.f_topology; sx_of_bytes f.f_division;
+     L [sx_of_zbig y; sx_of_zbig m; sx_of_zbig d];
+     sx_of_bytes f.f_definition; sx_of_bytes f.f_accession; sx_of_bytes f.f_version;
+     sx_of_pairs f.f_dblink; L (List.map sx_of_bytes f.f_keywords);
+     sx_of_bytes f.f_species; sx_of_bytes f.f_organism; L (List.map sx_of_bytes f.f_taxon);
+     L (List.map sx_of_ref f.f_references); L (List.map sx_of_bytes f.f_comments); sx_of_pairs f.f_extra;
+     L [sx_of_bytes ca; sx_of_zbig ch; sx_of_zbig ct];
+     (match f.f_region with None -> A "-" | Some (h, t) -> L [sx_of_zbig h; sx_of_zbig t]);
+     L (List.map sx_of_feature g.gb_table); sx_of_bytes g.gb_origin]
+(* the origin of an input record is given as residues *)
+let gb_of_sx (x : sx) : genbank * z list =
+  match x with
+  | L [A "GB"; lo; mo; top; dv; L [y; m; d]; def; acc; ver; dbl; kw; sp; org; tax; refs; coms; ex; L [ca; ch; ct]; reg; L feats; ori] ->
+    ({ gb_fields = { f_locus = bytes_of_sx lo; f_molecule = bytes_of_sx mo; f_topology = z_of_sx top; f_division = bytes_of_sx dv;
+                     f_date = ((z_of_sx y, z_of_sx m), z_of_sx d);
+                     f_definition = bytes_of_sx def; f_accession = bytes_of_sx acc; f_version = bytes_of_sx ver;
+                     f_dblink = pairs_of_sx dbl; f_keywords = list_of_sx bytes_of_sx kw;
+                     f_species = bytes_of_sx sp; f_organism = bytes_of_sx org; f_taxon = list_of_sx bytes_of_sx tax;
+                     f_references = list_of_sx ref_of_sx refs; f_comments = list_of_sx bytes_of_sx coms;
+                     f_extra = pairs_of_sx ex; f_contig = ((bytes_of_sx ca, z_of_sx ch), z_of_sx ct);
+                     f_region = (match reg with A "-" -> None | L [h; t] -> Some (z_of_sx h, z_of_sx t) | _ -> failwith "region expected") };
+       gb_table = List.map feature_of_sx feats; gb_origin = [] }, bytes_of_sx ori)
+  | _ -> failwith "genbank record expected"
